@@ -41,6 +41,9 @@ TEXT = {
  "C18": ("exploration", "run-sim", "5.C18",
          "Steps, step hooks and nested steps print unique markers to stdout/stderr/logging under all 8 capture switch combinations and every outcome class (incl. KeyboardInterrupt, step-hook errors): the simulator-owned TTYs record each chunk with the callback active at that moment; probes at every callback check the identity of sys.stdout/sys.stderr and the root logger's handlers/level; failure reports must contain exactly the markers of their own scenario; with a switch off the markers must arrive on the TTY in order.",
          "in-process TTY objects stand for the real streams; logging-filter worlds only check foreign markers"),
+ "C05": ("fault_enumeration", "file-fault simulator", "5.C05",
+         "The text the parser consumes is treated as storage under fault: for every sampled valid rendered document ALL (line position x fault kind) combinations are enumerated - torn write after/inside each line, lost line, duplicated line, swapped neighbours - plus every catalogued grammar violation at every position where it is one, delivered through parse_file on the scratch disk, parse_feature, parse_rule, parse_scenario, parse_steps and parse_tags, plus multi-language line soups. The call must return or raise ParserError with a line inside the text (the injected line for catalogued faults); anything else is a violation.",
+         "the parser is a pure function: there is no schedule dimension, the claim rests on the property being stated over injected faults on the consumed text; documents use English keywords (other languages in soups only)"),
 }
 
 def main():
@@ -51,6 +54,7 @@ def main():
         if pid not in TEXT:
             continue
         cat, engine, ref, text, note = TEXT[pid]
+        engine_path = {"file-fault simulator": "sim/parsersim.py"}.get(engine, "sim/")
         checks.append({
             "property_id": pid,
             "quick_cmd": "./check %s --tier quick" % pid,
@@ -63,8 +67,10 @@ def main():
             "technique": "deterministic simulation with fault injection (seeded worlds, scripted callback faults, reference-model acceptor)",
         })
     m["checks"] = checks
-    m["engines"] = [{"name": "run-sim", "path": "sim/", "serves_properties": [c["property_id"] for c in checks],
-                     "kind_free_text": "in-process deterministic simulation of the real behave runner: generated user code delegates to a scripted runtime; simulated clock/TTY; reference-model acceptor; ddmin + replay files"}]
+    m["engines"] = [{"name": "run-sim", "path": "sim/", "serves_properties": [c["property_id"] for c in checks if c["engine"] != "file-fault simulator"],
+                     "kind_free_text": "in-process deterministic simulation of the real behave runner: generated user code delegates to a scripted runtime; simulated clock/TTY; reference-model acceptor; ddmin + replay files"},
+                    {"name": "file-fault simulator", "path": "sim/parsersim.py", "serves_properties": ["C05"],
+                     "kind_free_text": "enumerates storage faults (torn/lost/duplicated/reordered lines) and catalogued grammar faults over rendered feature documents and feeds them to every parser entry point"}]
     claimed = set(c["property_id"] for c in checks)
     na = [x for x in m["not_applicable"] if x["property_id"] in ("C04", "C07", "C08", "C19", "C20")]
     for pid in ["C%02d" % i for i in range(1, 21)]:
